@@ -235,6 +235,9 @@ func (s *seqCtx) judge(d opDesc, o obs) {
 	s.r.Distinct(s.t.fixture, s.t.cfg, d.ns, d.via, d.method, instClass(s, d.inst), exp, o.kind, s.keyClass(d.key))
 	s.logf("%s -> %s (expected %s)", d, o, sl.describe())
 	noteInstance(s.mangleName()+" "+instClass(s, d.inst), d.ns+"."+o.kind+"(map:"+exp+")")
+	if d.ns != nsCAS && strings.HasPrefix(instClass(s, d.inst), "nearmiss-") {
+		s.r.Count(fmt.Sprintf("%s.nearmiss-instance.%s.%s", s.t.fixture, s.mangleName(), o.kind))
+	}
 
 	if o.kind == "transport" {
 		s.r.Count(s.t.fixture + ".transport-error")
